@@ -45,12 +45,16 @@ fn inproc_case(srv: &Srv, cfg: &SrvCfg, upload: bool, len: usize, blk: usize, ws
     let ip = srv.addr.ip().to_string();
     let port = srv.addr.port().to_string();
     let mut args: Vec<String> = vec!["tftpc".into()];
+    // an older, LONGER file already sits at the destination (the server runs with --overwrite): it must be replaced entirely
+    let stale = content(len + 777, 5);
     if upload {
         std::fs::write(format!("{cdir}/{fname}"), &data).unwrap();
+        std::fs::write(format!("{}/{fname}", srv.recv_dir), &stale).unwrap();
         args.push(format!("{cdir}/{fname}"));
         args.push("-u".into());
     } else {
         std::fs::write(format!("{}/{fname}", srv.send_dir), &data).unwrap();
+        std::fs::write(format!("{cdir}/{fname}"), &stale).unwrap();
         args.push(fname.clone());
         args.push("-d".into());
         args.extend(["-rd".into(), cdir.clone()]);
@@ -132,7 +136,7 @@ pub fn inproc_cell(spec: &Value) -> Value {
     let _ = std::env::set_current_dir("/"); // the client strips the leading '/' of an upload path
     let cfg = SrvCfg::from_json(&spec["srv"]);
     let mut c = Counters::default();
-    let srv = match server_for(&cfg) {
+    let srv = match if cfg.single { server_fresh(&cfg) } else { server_for(&cfg) } {
         Ok(s) => s,
         Err(e) => return json!({"machinery_error": format!("server start: {e}")}),
     };
@@ -164,7 +168,8 @@ pub fn inproc_cell(spec: &Value) -> Value {
                     break 'cell;
                 }
                 for &t in &touts {
-                    for upload in [false, true] {
+                    // uploads first: on a fresh single-port server nothing has enlarged the listener's buffer yet
+                    for upload in [true, false] {
                         seq += 1;
                         let (s, v) = inproc_case(&srv, &cfg, upload, len, blk, ws, t, seq);
                         c.executions += 1;
